@@ -160,6 +160,17 @@ def main():
     # the requirement is satisfiable: the REFERENCE excerpt of every core score of the bounded instance is recognised by the same machine
     run.add_tlc(tlc.run_tlc('MC_Excerpt', 'MC_Excerpt_q.cfg' if quick else 'MC_Excerpt_t.cfg', workers=16, timeout=5000,
                             label='MC_Excerpt(NeverStuck, EndsClosed, SameGoverning)'))
+    # what the code does, in the model: the TRANSCRIBED algorithm of Exporter.export_string (ExcerptImpl.tla; bound to the code by the clause
+    # impl.range_export_as_transcribed of every recorded range export in C07's sessions) applied to every core score of the bounded instance
+    # whose signature lines have one kind per line: it never raises, prints the reference excerpt line for line, and what it prints is
+    # recognised, closed and governed like the full score
+    run.add_tlc(tlc.run_tlc('MC_Excerpt', 'MC_Excerpt_impl.cfg' if quick else 'MC_Excerpt_impl_t.cfg', workers=16, timeout=5000,
+                            label='MC_Excerpt(the implementation\'s algorithm: ImplNeverRaises, ImplIsReference, NeverStuck, EndsClosed, SameGoverning)'))
+    # ... and outside that core TLC finds the recorded finding D15 by itself (signature lines of different kinds in the spines):
+    # an informational run, expected to END with a counterexample while the finding is open
+    ux = tlc.run_tlc('MC_Excerpt', 'MC_Excerpt_unequal.cfg', workers=8, timeout=1500, allow_error=True,
+                     label='MC_Excerpt(exploration: unequal signature kinds)')
+    run.note('model_counterexample_for_unequal_signature_kinds (finding D15)', 'found' if 'is violated' in ux.error else 'not found')
     pops = [('core', 140 if quick else 2500), ('explored', 60 if quick else 400), ('nonkern', 40 if quick else 250), ('late_signatures', 40 if quick else 500)]
     sess = []
     if a.replay_case:
